@@ -253,6 +253,7 @@ def behOf (stream : Bool) (layer : Nat) (c : Char) : Option InterceptClient.Inte
   else if c == 's' then some (InterceptClient.logShort stream layer)
   else if c == 'a' then some (InterceptClient.logAlter stream layer)
   else if c == 'd' then some (InterceptClient.logDrop stream layer)
+  else if c == 'm' then some (InterceptClient.logRename stream layer)
   else none
 
 def driveC17 (args : List String) : String :=
@@ -276,8 +277,8 @@ def driveC17 (args : List String) : String :=
     let showEv : InterceptClient.Ev → Option String
       | .int st l cc c =>
         let ccs := match cc with | some _ => "root" | none => "nil"
-        some s!"int{if st then "S" else "U"}({l},cc={ccs},{mname},opts={c.opts})"
-      | .base st _ c => if baseKind == "rec" || baseKind == "recf" then some s!"base{if st then "S" else "U"}({mname},opts={c.opts})" else none
+        some s!"int{if st then "S" else "U"}({l},cc={ccs},{mname}{String.ofList (List.replicate c.method '~')},opts={c.opts})"
+      | .base st _ c => if baseKind == "rec" || baseKind == "recf" then some s!"base{if st then "S" else "U"}({mname}{String.ofList (List.replicate c.method '~')},opts={c.opts})" else none
     let body := " ".intercalate (evs.filterMap showEv)
     body ++ " =>" ++ (if res == 0 then "ok" else "short")
   | _ => "bad-op"
